@@ -202,9 +202,10 @@ func (b *UnsafeLinkBuffer) Peek(n int) (p []byte, err error) {
 
 	// multiple nodes
 
-	// try to make use of the cap of b.cachePeek, if can't, free it.
+	// try to make use of the cap of b.cachePeek, if can't, retire it:
+	// an earlier Peek result may still be in use until Release, which frees b.caches.
 	if b.cachePeek != nil && cap(b.cachePeek) < n {
-		free(b.cachePeek)
+		b.caches = append(b.caches, b.cachePeek)
 		b.cachePeek = nil
 	}
 	if b.cachePeek == nil {
@@ -792,7 +793,10 @@ func (b *UnsafeLinkBuffer) recalLen(delta int) (length int) {
 	if delta < 0 && len(b.cachePeek) > 0 {
 		// b.cachePeek will contain stale data if we read out even a single byte from buffer,
 		// so we need to reset it or the next Peek call will return invalid bytes.
-		b.cachePeek = b.cachePeek[:0]
+		// the old copy may still be referenced by the caller until Release, so it is
+		// retired to b.caches (freed by Release) rather than overwritten in place.
+		b.caches = append(b.caches, b.cachePeek)
+		b.cachePeek = nil
 	}
 	return int(atomic.AddInt64(&b.length, int64(delta)))
 }
